@@ -35,7 +35,10 @@ def run_all_tensors(model, feeds, key):
     qp = d["quantization_parameters"]
     if len(qp["scales"]):
       info = np.iinfo(d["dtype"])
-      v = np.clip(np.rint(v / qp["scales"] + qp["zero_points"]), info.min, info.max).astype(d["dtype"])
+      # same arithmetic as the TFLite reference quantisation the library applies to model inputs (multiply by the float32
+      # inverse scale): a different rounding of an exact tie would feed the two harnesses inputs one code apart
+      inv = 1.0 / np.asarray(qp["scales"])
+      v = np.clip(np.rint(np.multiply(v, inv) + np.asarray(qp["zero_points"])), info.min, info.max).astype(d["dtype"])
     f2[name] = v
   run(**f2)
   sub = run._subgraph_index  # pylint: disable=protected-access
